@@ -99,9 +99,12 @@ func verifDial(network, addr string, cfg *tls.Config) (*tls.Conn, error) {
         if not m:
             raise RuntimeError("func Blind not found in mpc/ps/ps.go")
         body = m.group(3)
-        body2, n = re.subn(r"^(\s*)mPrime := .*$", r"\1mPrime := VerifChosenMPrime", body, count=1, flags=re.M)
+        body2, n = re.subn(r"^(\s*)(mPrime := .*)$", r"\1\2\n\1if VerifChosenMPrime != nil {\n\1\tmPrime = VerifChosenMPrime\n\1}", body, count=1, flags=re.M)
         if n != 1:
             raise RuntimeError("the derivation of mPrime was not found in Blind")
+        # the ciphertexts may be altered before the proof is computed over them
+        body2, n = re.subn(r"^(\s*)(a, b, (\w+) := encrypt\(.*)$", r"\1\2\n\1if VerifTamper != nil {\n\1\tVerifTamper(a, b)\n\1}", body2, count=1, flags=re.M)
+        notes["overlay_psforge_tamper"] = "hook inserted" if n == 1 else "encrypt call not found: ciphertext-tamper requests not buildable"
         imports = re.search(r"^import \((.*?)^\)", src, flags=re.M | re.S)
         imp = imports.group(1) if imports else ""
         keep = []
@@ -118,6 +121,8 @@ func verifDial(network, addr string, cfg *tls.Config) (*tls.Conn, error) {
         open(add, "w").write("package ps\n\nimport (\n" + "\n".join(keep) + "\n)\n\n"
                               "// VerifChosenMPrime is the last message component used by VerifBlindChosen.\n"
                               "var VerifChosenMPrime *math.Zr\n\n"
+                              "// VerifTamper, when set, may alter the ciphertexts before the proof is computed over them.\n"
+                              "var VerifTamper func(a, b []*math.G1)\n\n"
                               "// VerifBlindChosen is Blind with a caller-chosen m' (generated by the verification overlay).\n"
                               "func VerifBlindChosen(" + m.group(1) + ") (" + m.group(2) + ") {\n" + body2 + "}\n")
         replace[os.path.join(REPO, "mpc/ps/verif_forge.go")] = add
